@@ -106,7 +106,7 @@ def footprints(cols, rows, shape, rps, kw, which):
     return out
 
 
-def fornav_all(cols, rows, data, dtype, rps, p, mwm, shape, fill, want_fp=True, fill_kw=True):
+def fornav_all(cols, rows, data, dtype, rps, p, mwm, shape, fill, want_fp=True, fill_kw=True, ws_wsm=None):
     """One-shot fornav + weights/accums + footprints + write_grid_image_single, all from the real code."""
     kw = wkw(p)
     dt = np.dtype(dtype)
@@ -135,7 +135,8 @@ def fornav_all(cols, rows, data, dtype, rps, p, mwm, shape, fill, want_fp=True, 
                                                      maximum_weight_mode=bool(mwm), **kw)
         res["ws"] = {"ok": bool(ok), "weights": hexflat(w), "accums": hexflat(acc)}
         out2 = np.full(shape, pyfill, dtype=dt)
-        nv = _fornav.write_grid_image_single(out2, w, acc, pyfill, weight_sum_min=kw["weight_sum_min"],
+        nv = _fornav.write_grid_image_single(out2, w, acc, pyfill,
+                                             weight_sum_min=kw["weight_sum_min"] if ws_wsm is None else float(ws_wsm),
                                              maximum_weight_mode=bool(mwm))
         res["ws"]["grid"] = hexflat(out2)
         res["ws"]["n"] = int(nv)
@@ -151,7 +152,8 @@ def fornav_all(cols, rows, data, dtype, rps, p, mwm, shape, fill, want_fp=True, 
 def run_fornav(c):
     cols, rows, data = unhex2(c["cols"]), unhex2(c["rows"]), unhex2(c["data"])
     fill = float.fromhex(c.get("fill", "nan"))
-    return fornav_all(cols, rows, data, c["dtype"], int(c["rps"]), c["params"], c["mwm"], tuple(c["grid"]), fill)
+    return fornav_all(cols, rows, data, c["dtype"], int(c["rps"]), c["params"], c["mwm"], tuple(c["grid"]), fill,
+                      ws_wsm=c.get("ws_wsm"))
 
 
 def run_scene(c):
@@ -170,7 +172,8 @@ def run_scene(c):
     x, y = t.transform(lons.copy(), lats.copy())
     n, cols, rows = ll2cr(swath, area)
     res["ll2cr"] = {"n": int(n), "x": hexflat(x), "y": hexflat(y), "cols": hexflat(cols), "rows": hexflat(rows)}
-    res["fornav"] = fornav_all(cols, rows, data, dt, rps, p, mwm, area.shape, fill, want_fp=c.get("want_fp", True))
+    res["fornav"] = fornav_all(cols, rows, data, dt, rps, p, mwm, area.shape, fill, want_fp=c.get("want_fp", True),
+                               ws_wsm=c.get("ws_wsm"))
     # ---- dask
     in_rows = int(c["in_rows"])
     out_chunks = tuple(tuple(int(v) for v in ax) for ax in c["out_chunks"])
